@@ -12,6 +12,7 @@ from __future__ import annotations
 import math
 from fractions import Fraction
 
+from gscrib import GCodeBuilder, GCodeCore
 from gscrib.printrun import gcoder
 
 from harness import gen
@@ -52,7 +53,10 @@ class History:
     def __init__(self, ctx, col, case, rng):
         self.ctx, self.col, self.case, self.rng = ctx, col, case, rng
         self.dp = rng.choice([0, 1, 3, 5, 8])
-        self.s = Session(dp=self.dp)
+        # one history in six drives the bare GCodeCore (the motion core is usable on its own and has
+        # its own set_axis / set_distance_mode); it has no state object, homing, probing or tracer
+        self.core_only = rng.random() < 1 / 6
+        self.s = Session(dp=self.dp, builder_cls=GCodeCore if self.core_only else GCodeBuilder)
         self.g = self.s.g
         self.gc = gcoder.GCode()
         self.gc_valid = {a: False for a in AX}
@@ -64,10 +68,10 @@ class History:
         self.keys = set()
         self.failed = False
         self.calls_left = ctx.params["calls"]
-        res = rng.choice([0.5, 1.0, 2.0, 5.0])
-        self.g.set_resolution(res)
-        if rng.random() < 0.5:
-            self.g.set_direction(rng.choice(["cw", "ccw"]))
+        if not self.core_only:
+            self.g.set_resolution(rng.choice([0.5, 1.0, 2.0, 5.0]))
+            if rng.random() < 0.5:
+                self.g.set_direction(rng.choice(["cw", "ccw"]))
 
     # -- gcoder observer ------------------------------------------------
     def feed_gcoder(self, lines):
@@ -174,14 +178,16 @@ class History:
         # distance mode: builder, state object and wire agree
         self.col.count("mode_comparisons")
         b_rel = g.distance_mode.is_relative
-        s_rel = g.state.distance_mode.is_relative
+        s_rel = b_rel if self.core_only else g.state.distance_mode.is_relative
         if not (b_rel == s_rel == m.relative):
             self.fail("distance-mode-mismatch", {"builder": b_rel, "state": s_rel, "wire": m.relative})
             return
         if self.gc.relative != m.relative:
             self.fail("gcoder-mode-mismatch", {"gcoder": self.gc.relative, "wire": m.relative})
             return
-        if outcome == "ok" and _is_motion(name):
+        if self.core_only:
+            self.col.count("core_only_checks")
+        elif outcome == "ok" and _is_motion(name):
             self.col.count("state_position_comparisons")
             sp = g.state.position
             if (sp.x, sp.y, sp.z) != (pos.x, pos.y, pos.z):
@@ -208,6 +214,12 @@ class History:
         rng, g = self.rng, self.g
         r = rng.random()
         dp = self.dp
+        if self.core_only:
+            # remap the homing / probing / tracer slots to plain moves and axis resets
+            if 0.50 <= r < 0.63:
+                r = rng.choice([0.1, 0.35, 0.45])
+            elif r >= 0.83 or (r >= 0.71 and depth >= 3):
+                r = rng.choice([0.1, 0.35, 0.45, 0.65])
         if r < 0.30:
             op = rng.choice(["move", "rapid"])
             kw = gen.axes_subset(rng, dp)
